@@ -61,6 +61,11 @@ type model struct {
 	coll   bool // spaces collapse
 	anyBrk bool // word-break: break-all
 	owAny  bool // overflow-wrap: anywhere / break-word
+	// evidence counters of the last Layout call: words cut by overflow-wrap (all / touching an
+	// inline box), overlong words moved to the next line whole because the line had an ordinary
+	// opportunity although a prefix would have fitted the rest of the line (all / the word is in
+	// or next to an inline box or an atomic inline)
+	owSplits, owSplitsInBox, owDeferred, owDeferredBox int
 }
 
 func parseLH(lh string, fs float64) (float64, error) {
@@ -305,6 +310,7 @@ const eps = 1e-6
 // outside the compared domain.
 func (m *model) Layout(W float64) (lines []Line, guard string) {
 	guards := map[string]bool{}
+	m.owSplits, m.owSplitsInBox, m.owDeferred, m.owDeferredBox = 0, 0, 0, 0
 	indent := float64(m.p.Indent)
 	if m.p.IndPct != 0 {
 		indent = W * float64(m.p.IndPct) / 100
@@ -326,6 +332,16 @@ func (m *model) Layout(W float64) (lines []Line, guard string) {
 			q, f := m.unitEnd(end)
 			full, ns := m.widths(end, q)
 			if end > pos && x+ns > avail+eps {
+				if m.owAny {
+					// the unit does not fit the rest of the line: overflow-wrap must not cut it here,
+					// the line has an ordinary opportunity before it
+					if c, fits := m.splitUnit(end, q, avail-x); c > 0 && fits {
+						m.owDeferred++
+						if fc := m.nextContent(end); m.items[fc].box != 0 || m.items[end-1].box != 0 || m.items[end-1].k != 'c' {
+							m.owDeferredBox++
+						}
+					}
+				}
 				// finding D2: a collapsible space that ends its text node is dropped when the text
 				// before it fits and the text with it does not, even if content follows on the line
 				tsp, endsNode, _ := m.trailingSpace(pos, end)
@@ -343,7 +359,15 @@ func (m *model) Layout(W float64) (lines []Line, guard string) {
 			if end == pos && x+ns > avail+eps && m.owAny {
 				// overflow-wrap: the unit may be broken anywhere since the line has no other
 				// opportunity: keep as many characters as fit (at least one)
-				if c := m.splitUnit(end, q, avail); c > 0 {
+				c, fits := m.splitUnit(end, q, avail)
+				if c > 0 {
+					for _, g := range m.owGuards(end, q, c, fits, avail) {
+						guards[g] = true
+					}
+					m.owSplits++
+					if m.items[c-1].box != 0 || m.items[m.nextContent(c)].box != 0 {
+						m.owSplitsInBox++
+					}
 					end = c
 					break
 				}
@@ -379,7 +403,7 @@ func (m *model) Layout(W float64) (lines []Line, guard string) {
 	if len(lines) > 0 {
 		lines[len(lines)-1].Last = true
 	}
-	for _, g := range []string{"D2", "D10", "D16"} {
+	for _, g := range []string{"D2", "D10", "D14", "D16", "D19"} {
 		if guards[g] && !lifted(g) {
 			return lines, g
 		}
@@ -432,9 +456,9 @@ func (m *model) trailingSpace(p, q int) (w float64, endsNode, inBox bool) {
 }
 
 // splitUnit finds the split point inside the overlong unit items[p:q] for overflow-wrap: the
-// largest prefix that fits avail and ends between two non-space characters, or the shortest such
-// prefix when none fits.  Returns 0 when the unit has no inner split point.
-func (m *model) splitUnit(p, q int, avail float64) int {
+// largest prefix that fits avail and ends between two non-space characters (fits = true), or the
+// shortest such prefix when none fits.  Returns 0 when the unit has no inner split point.
+func (m *model) splitUnit(p, q int, avail float64) (cut int, fits bool) {
 	best, firstPt := 0, 0
 	lastChar := -1
 	for i := p; i < q; i++ {
@@ -460,9 +484,53 @@ func (m *model) splitUnit(p, q int, avail float64) int {
 		}
 	}
 	if best > 0 {
-		return best
+		return best, true
 	}
-	return firstPt
+	return firstPt, false
+}
+
+// owGuards names the known-defect configurations met when the unit items[p:q], first on its line
+// and wider than avail, is cut at c by overflow-wrap.
+func (m *model) owGuards(p, q, c int, fits bool, avail float64) (out []string) {
+	// finding D14: a text that is given a non-positive width is not wrapped at all; the room left
+	// to the unit's first character is what remains after the start edges before it
+	room := avail
+	for i := p; i < q && m.items[i].k != 'c' && m.items[i].k != 'a'; i++ {
+		if m.items[i].k == 'o' {
+			room -= m.items[i].w
+		}
+	}
+	if room <= eps {
+		out = append(out, "D14")
+	}
+	// finding D16: the text up to the end edge of its inline box fits, but not with the edge's
+	// spacing: webrender splits it again against (available - spacing) although the fragment
+	// kept on this line does not hold the box's end
+	for k := p; k < q; k++ {
+		if it := m.items[k]; it.k == 'x' && it.w > 0 {
+			if cw, _ := m.widths(p, k); cw <= avail+eps {
+				out = append(out, "D16")
+			}
+		}
+	}
+	// finding D19: a single character wider than the line is followed by a collapsible space that
+	// ends an inline box: the space is carried to the next line instead of hanging, and leaves an
+	// empty fragment of the box (with its strut) there
+	if !fits {
+		for k := c; k < len(m.items); k++ {
+			it := m.items[k]
+			if it.k == 'x' {
+				continue
+			}
+			if it.k == 'c' && it.sp && it.box != 0 {
+				if _, endsNode, _ := m.trailingSpace(p, k+1); endsNode {
+					out = append(out, "D19")
+				}
+			}
+			break
+		}
+	}
+	return out
 }
 
 // finish builds the line made of items[p:q].
